@@ -412,6 +412,9 @@ func init() {
 	addPlan("C03", planEntry{Engine: "A", Scenario: "restart-after-install", Params: "seg=1024", Quick: 6, Thorough: 60})
 	addPlan("C02", planEntry{Engine: "A", Scenario: "restart-after-install", Params: "seg=1024", Quick: 4, Thorough: 40})
 	addPlan("C10", planEntry{Engine: "A", Scenario: "restart-after-install", Params: "seg=1024", Quick: 4, Thorough: 40})
+	addPlan("C15", planEntry{Engine: "A", Scenario: "grown-cluster", Params: "seg=1024", Quick: 6, Thorough: 60})
+	addPlan("C09", planEntry{Engine: "A", Scenario: "grown-cluster", Params: "seg=1024", Quick: 4, Thorough: 40})
+	addPlan("C15", planEntry{Engine: "A", Scenario: "transfer-target-campaigns-later", Quick: 4, Thorough: 40})
 	addPlan("C02", planEntry{Engine: "A", Scenario: "grown-cluster", Quick: 6, Thorough: 60})
 	addPlan("C06", planEntry{Engine: "A", Scenario: "grown-cluster", Quick: 4, Thorough: 40})
 	addPlan("C08", planEntry{Engine: "A", Scenario: "grown-cluster", Quick: 4, Thorough: 40})
